@@ -364,6 +364,9 @@ def check_trace(tr, maxloops=10, counts=None):
         if n > 1:
             v.append(('cleanup-twice', tag, n))
         has_cleanup = st[3] is not None
+        if n and not has_cleanup:
+            # "entered with exactly its attributes": a run started without a cleanup function has none
+            v.append(('cleanup-of-a-run-started-without-cleanup', tag))
         if tag in entered and has_cleanup:
             still_current = end[1] and end[3] == tag and ended.get(tag) is None
             if ended.get(tag) == 'finish' and n:
